@@ -238,10 +238,11 @@ def run_property(pid, tier, seed=0):
                       failed_obligations=[f['message'] for f in item['failures']], verifier_output=[f['rendered'] for f in item['failures']],
                       generated_file=res['file'], checker_cmd=res['cmd'], concrete_input=None)
         cex = None
+        st = {}
         try:
             t1 = time.time()
             if spent_v <= (600 if tier == 'quick' else 3600):
-                cex = CEX.search(pid, item['key'], res['digit'], res['mode'], budget_s=(240 if tier == 'quick' else 1200))
+                cex = CEX.search(pid, item['key'].replace('__mp', '').replace('__wf', ''), res['digit'], res['mode'], budget_s=(240 if tier == 'quick' else 1200), stats=st)
             else:
                 replay['cex_search_error'] = 'counter-example search budget of this run used up by earlier violations'
             spent_v += time.time() - t1
@@ -249,6 +250,14 @@ def run_property(pid, tier, seed=0):
             replay['cex_search_error'] = str(ex)
         if cex:
             replay['concrete_input'] = cex
+        elif not item.get('identical', True) and st.get('exact') and st.get('passed') and not st.get('failed'):
+            # the function was CHANGED, its transplanted proof no longer goes through, no failing input was found, and
+            # the bounded harnesses registered for exactly this function pass on the changed code: proof hints that no
+            # longer carry are not a property violation (DESIGN 3.7) - undecided, not an alarm
+            reported -= 1
+            undecided.append(f"{v['key']}: the function changed and its proof no longer goes through ({'; '.join(replay['failed_obligations'][:2])}), "
+                             f"but the bounded harnesses registered for it pass on the changed code ({', '.join(st['passed'][:4])}) and no failing input was found")
+            continue
         json.dump(replay, open(rp, 'w'), indent=1)
         suffix = '' if cex else ' no-failing-input-found'
         lines.append(f"VIOLATION property={pid} replay={rp}{suffix}")
